@@ -56,10 +56,28 @@ func resetWorld() {
 			vk.Fatalf("restore reserve: %v", err)
 		}
 	}
-	for _, m := range vsys.Mapped {
-		_ = vsys.Munmap(m)
-	}
+	// regions obtained through mmap are never given back: the allocator may keep carving the
+	// same mapping in later histories (the driver bounds the cases per process instead)
 	vsys.ResetLog()
+}
+
+// everMapped holds every region the mmap path has handed out in this process, by page.
+var everMapped = map[uintptr][]region{}
+
+// claimMapped records r and reports an earlier region (of any history) it overlaps.
+func claimMapped(r region) (region, bool) {
+	const ps = 4096
+	for p := r.lo &^ (ps - 1); p < r.hi; p += ps {
+		for _, o := range everMapped[p] {
+			if r.lo < o.hi && o.lo < r.hi {
+				return o, true
+			}
+		}
+	}
+	for p := r.lo &^ (ps - 1); p < r.hi; p += ps {
+		everMapped[p] = append(everMapped[p], r)
+	}
+	return region{}, false
 }
 
 // SeqCase is the replay artefact of the sequential part.
@@ -150,6 +168,11 @@ func runSeq(mode string, reqs []int, mmapOK []bool) (fail string) {
 			}
 		}
 		got = append(got, r)
+		if typ != zz.TypeHolder && n > 0 && n <= 1<<20 {
+			if o, clash := claimMapped(r); clash {
+				return fmt.Sprintf("step %d: region overlaps a region of %d bytes handed out in an earlier history of this process (nothing is ever released)", step, int(o.hi-o.lo))
+			}
+		}
 		if n > 0 {
 			if p := vk.PermAt(vk.Maps(), addr); !strings.Contains(p, "x") {
 				return fmt.Sprintf("step %d: region not executable (%s)", step, p)
